@@ -1,3 +1,5 @@
+import DSV.Proofs.Skeleton
+import DSV.Generated.Skeleton
 import DSV.Proofs.GcRun
 /-!
 C07 — garbage collection fails closed.
@@ -74,3 +76,23 @@ theorem dangling_hint_collected_against_older_version :
     collect fixed danglingHint = .raised [] := by decide
 
 end DSV.GcRun
+
+/-! ## Tie to the current source: every read, listing and abort precedes the first delete -/
+namespace DSV.Src.C07
+open DSV.Skel DSV.Generated.Skel
+
+/-- **source_sweep_last** — in the CURRENT source of `GarbageCollector.collect` nothing but sweeping follows the first sweep:
+markers, metadata, the dangling-pointer check, every manifest-list and manifest read, BOTH listings and every abort come
+first, and `collect` itself deletes nothing outside `_gc_prefix`. -/
+theorem source_sweep_last : sweepLast gcCollect = true := by decide
+
+/-- **source_collect_order** — the exact step order of `collect`. -/
+theorem source_collect_order :
+    project gcVoc gcCollect = ["markers", "meta", "hintCheck", "abort", "readList", "abort", "readManifest", "abort",
+                               "list", "list", "sweep", "sweep"] := by decide
+
+/-- **source_sweep_cannot_abort** — `_gc_prefix` raises nothing of its own: it (re)lists only as a fallback, and deletes. -/
+theorem source_sweep_cannot_abort :
+    project gcVoc gcPrefix = ["list", "delete"] ∧ gcPrefix.contains "raise" = false := by decide
+
+end DSV.Src.C07
